@@ -748,6 +748,12 @@ type httpError interface {
 
 func buildRequestURL(apiHost, dataset string) (string, error) {
 	escapedDataset := url.PathEscape(dataset)
+	// PathEscape leaves "." and ".." alone and JoinPath would then resolve them
+	// as dot segments, addressing the batch to /1/batch or /1 instead of the
+	// dataset. Percent-encode the dots so the name stays a path segment.
+	if dataset == "." || dataset == ".." {
+		escapedDataset = strings.ReplaceAll(dataset, ".", "%2E")
+	}
 
 	return url.JoinPath(apiHost, "/1/batch", escapedDataset)
 }
